@@ -333,6 +333,20 @@ def _long_when_leaf(s):
     return False
 
 
+def _hang_confirmed(ctx, entry, h):
+    """does the input hang when run alone? (`c05 one <entry> <hex>`; the entry of a search failure may be unknown: try them all)"""
+    limit = 120 if ctx.tier == "thorough" else 30
+    entries = [entry] if entry not in ("?", "") else ["R", "PU", "M", "Q", "G", "GQ", "X", "V", "A", "D", "NP", "QV", "AT", "W", "AC"]
+    for e in entries:
+        try:
+            subprocess.run([ctx.bin, "one", e, h], capture_output=True, text=True, timeout=limit)
+        except subprocess.TimeoutExpired:
+            return True
+        except Exception:
+            return True      # cannot tell: keep the report
+    return False
+
+
 def extra(ctx):
     """robustness SEARCH over the seven entry points in child processes + the F-C05h growth probe"""
     fails, cov = [], {}
@@ -372,6 +386,12 @@ def extra(ctx):
             sig = _panic_sig(entry, what[6:])
             clause = "panic"
         elif what.startswith("hang"):
+            # false-alarm control: a hang reported by the search is CONFIRMED by running that input alone (every entry point, same
+            # watchdog). A genuine hang reproduces in isolation; a watchdog that fired because the machine was overloaded, or that was
+            # attributed to the neighbour of a slow input, does not (seen once in a thorough run under three concurrent heavy jobs).
+            if not _hang_confirmed(ctx, entry, h):
+                cov["search_unconfirmed_hangs"] = cov.get("search_unconfirmed_hangs", 0) + 1
+                continue
             sig = KNOWN_HANG_SIG if _long_when_leaf(s) else "hang:other"
             clause = "hang"
         else:
